@@ -4,6 +4,7 @@ regenerated from /repo on every run into Argot/Gen and never committed).
 
 T1  instruction dispatch (`lang.InstrSwitch`)      — `genericOnlyKinds`
 T8  `panic(` call sites                            — `classified`
+T12 trace expressions of the visitors              — `traceExprs`
 -/
 namespace Argot.C07.Spec
 
@@ -45,9 +46,9 @@ def classified : List Site := [
   ⟨"analysis/backtrace/backtrace.go", "(*Visitor).visit", "fmt:[No Context] no referring make closure nodes from %v", .inv⟩,
   ⟨"analysis/backtrace/backtrace.go", "(*Visitor).visit", "fmt:callsite %v has no callee", .inv⟩,
   ⟨"analysis/backtrace/backtrace.go", "(*Visitor).visit", "fmt:closure's parent function does not exist for free variable: %v", .inv⟩,
-  ⟨"analysis/backtrace/backtrace.go", "(*Visitor).visit", "fmt:no bound variable matching free variable in %s at position %d", .inv⟩,
+  ⟨"analysis/backtrace/backtrace.go", "(*Visitor).visit", "fmt:no bound variable matching free variable in %s at position %d", .reached⟩,
   ⟨"analysis/backtrace/backtrace.go", "(*Visitor).visit", "fmt:no free variable matching bound variable in %s at position %d", .inv⟩,
-  ⟨"analysis/backtrace/backtrace.go", "(*Visitor).visit", "fmt:node's callee summary is nil: %v", .inv⟩,
+  ⟨"analysis/backtrace/backtrace.go", "(*Visitor).visit", "fmt:node's callee summary is nil: %v", .reached⟩,
   ⟨"analysis/backtrace/backtrace.go", "(*Visitor).visit", "fmt:unhandled graph node type: %T", .inv⟩,
   ⟨"analysis/backtrace/backtrace.go", "(*Visitor).visit", "lit:nil callee", .inv⟩,
   ⟨"analysis/backtrace/backtrace.go", "(*Visitor).visit", "lit:nil param", .inv⟩,
@@ -58,7 +59,7 @@ def classified : List Site := [
   ⟨"analysis/backtrace/backtrace.go", "(Trace).String", "fmt:failed to write trace node %v to string: %v", .io⟩,
   ⟨"analysis/dataflow/flow_info.go", "(*FlowInformation).GetNewMark", "fmt:Malformed constraint: a tuple %v but index %d out of bounds", .inv⟩,
   ⟨"analysis/dataflow/function_summary_graph.go", "(*SummaryGraph).addCallArgEdge", "lit:attempting to set call arg edge but no call arg node", .inv⟩,
-  ⟨"analysis/dataflow/function_summary_graph.go", "(*SummaryGraph).addCallInstr", "lit:critical information missing in analysis", .inv⟩,
+  ⟨"analysis/dataflow/function_summary_graph.go", "(*SummaryGraph).addCallInstr", "lit:critical information missing in analysis", .reached⟩,
   ⟨"analysis/dataflow/function_summary_graph.go", "addInEdge", "fmt:invalid dest node type: %T", .inv⟩,
   ⟨"analysis/dataflow/inter_procedural.go", "BuildSummary", "fmt:single function analysis failed for %v: %v", .inv⟩,
   ⟨"analysis/dataflow/intra_procedural_instruction_ops.go", "(*IntraAnalysisState).DoSelect", "lit:unexpected select channel type", .inv⟩,
@@ -101,7 +102,7 @@ def classified : List Site := [
   ⟨"analysis/lang/instructions.go", "InstrSwitch", "expr:instr", .inv⟩,
   ⟨"analysis/taint/dataflow_visitor.go", "(*Visitor).Visit", "fmt:[No Context] no referring make closure nodes from %v", .inv⟩,
   ⟨"analysis/taint/dataflow_visitor.go", "(*Visitor).Visit", "fmt:[No Context] no referring make closure nodes from %v", .inv⟩,
-  ⟨"analysis/taint/dataflow_visitor.go", "(*Visitor).Visit", "fmt:no bound variable matching free variable in %s at position %d", .inv⟩,
+  ⟨"analysis/taint/dataflow_visitor.go", "(*Visitor).Visit", "fmt:no bound variable matching free variable in %s at position %d", .reached⟩,
   ⟨"analysis/taint/dataflow_visitor.go", "(*Visitor).Visit", "fmt:unexpected missing callee summary for reachable function %s", .inv⟩,
   ⟨"analysis/taint/dataflow_visitor.go", "(*Visitor).Visit", "lit:callsite has no callee", .inv⟩,
   ⟨"analysis/taint/dataflow_visitor.go", "(*Visitor).Visit", "lit:nil param", .inv⟩,
@@ -110,6 +111,61 @@ def classified : List Site := [
   ⟨"analysis/taint/dataflow_visitor.go", "(*Visitor).onDemandIntraProcedural", "fmt:failed to run intra-procedural analysis : %v", .inv⟩,
   ⟨"analysis/taint/report.go", "panicOnUnexpectedMissingFreeVar", "fmt:[No Context] no bound variable matching free variable in %s at position %d", .inv⟩,
   ⟨"internal/funcutil/option.go", "(none).Value", "expr:s", .inv⟩
+]
+
+/-- how a trace expression relates to the current element's trace (`traceStep` of the model). -/
+inductive TraceDeriv where
+  | same       -- the current trace (or the successor's own trace, for the intermediate tracing node)
+  | ancestor   -- `.Parent`, `UnwindCallStackToFunc`, `nil`: an ancestor of the current trace
+  | add        -- `.Add(label)`: one more label
+  | viaLocal   -- a local variable; its definitions are listed as `local:<name>` rows
+  | unrelated  -- same identifier, but not a `NodeWithTrace` trace (backtrace.Trace values, report strings)
+  deriving DecidableEq, Repr
+
+structure TraceExpr where
+  file : String
+  what : String
+  expr : String
+  cls  : TraceDeriv
+  deriving DecidableEq, Repr
+
+def TraceExpr.key (s : TraceExpr) : String × String × String := (s.file, s.what, s.expr)
+
+/-- every way the two visitors build the `Trace` / `ClosureTrace` of a successor (table T12), classified by hand. -/
+def traceExprs : List TraceExpr := [
+  ⟨"analysis/backtrace/backtrace.go", "ClosureTrace", "cur.ClosureTrace", .same⟩,
+  ⟨"analysis/backtrace/backtrace.go", "ClosureTrace", "cur.ClosureTrace.Add(closureNode)", .add⟩,
+  ⟨"analysis/backtrace/backtrace.go", "ClosureTrace", "cur.ClosureTrace.Parent", .ancestor⟩,
+  ⟨"analysis/backtrace/backtrace.go", "ClosureTrace", "nil", .ancestor⟩,
+  ⟨"analysis/backtrace/backtrace.go", "Trace", "cur.Trace", .same⟩,
+  ⟨"analysis/backtrace/backtrace.go", "Trace", "cur.Trace.Add(callSite)", .add⟩,
+  ⟨"analysis/backtrace/backtrace.go", "Trace", "cur.Trace.Add(graphNode)", .add⟩,
+  ⟨"analysis/backtrace/backtrace.go", "Trace", "nil", .ancestor⟩,
+  ⟨"analysis/backtrace/backtrace.go", "Trace", "tr", .viaLocal⟩,
+  ⟨"analysis/backtrace/backtrace.go", "Trace", "trace", .viaLocal⟩,
+  ⟨"analysis/backtrace/backtrace.go", "local:tr", "<zero value>", .ancestor⟩,
+  ⟨"analysis/backtrace/backtrace.go", "local:tr", "cur.Trace.Parent", .ancestor⟩,
+  ⟨"analysis/backtrace/backtrace.go", "local:trace", "<zero value>", .ancestor⟩,
+  ⟨"analysis/backtrace/backtrace.go", "local:trace", "Trace{}", .unrelated⟩,
+  ⟨"analysis/backtrace/backtrace.go", "local:trace", "append(trace, node)", .unrelated⟩,
+  ⟨"analysis/backtrace/backtrace.go", "local:trace", "range traces", .unrelated⟩,
+  ⟨"analysis/taint/dataflow_visitor.go", "ClosureTrace", "cur.ClosureTrace", .same⟩,
+  ⟨"analysis/taint/dataflow_visitor.go", "ClosureTrace", "cur.ClosureTrace.Add(closureNode)", .add⟩,
+  ⟨"analysis/taint/dataflow_visitor.go", "ClosureTrace", "cur.ClosureTrace.Parent", .ancestor⟩,
+  ⟨"analysis/taint/dataflow_visitor.go", "ClosureTrace", "nextNodeWithTrace.ClosureTrace", .same⟩,
+  ⟨"analysis/taint/dataflow_visitor.go", "ClosureTrace", "nil", .ancestor⟩,
+  ⟨"analysis/taint/dataflow_visitor.go", "Trace", "cur.Trace", .same⟩,
+  ⟨"analysis/taint/dataflow_visitor.go", "Trace", "cur.Trace.Add(graphNode)", .add⟩,
+  ⟨"analysis/taint/dataflow_visitor.go", "Trace", "cur.Trace.Parent", .ancestor⟩,
+  ⟨"analysis/taint/dataflow_visitor.go", "Trace", "cur.Trace.SummaryString()", .unrelated⟩,
+  ⟨"analysis/taint/dataflow_visitor.go", "Trace", "df.UnwindCallStackToFunc(cur.Trace, closureNode.Graph().Parent)", .ancestor⟩,
+  ⟨"analysis/taint/dataflow_visitor.go", "Trace", "newCallStack", .viaLocal⟩,
+  ⟨"analysis/taint/dataflow_visitor.go", "Trace", "nextNodeWithTrace.Trace", .same⟩,
+  ⟨"analysis/taint/dataflow_visitor.go", "Trace", "nil", .ancestor⟩,
+  ⟨"analysis/taint/dataflow_visitor.go", "Trace", "trace", .viaLocal⟩,
+  ⟨"analysis/taint/dataflow_visitor.go", "local:newCallStack", "cur.Trace.Add(callSite)", .add⟩,
+  ⟨"analysis/taint/dataflow_visitor.go", "local:trace", "<zero value>", .ancestor⟩,
+  ⟨"analysis/taint/dataflow_visitor.go", "local:trace", "cur.Trace.Parent", .ancestor⟩
 ]
 
 end Argot.C07.Spec
